@@ -106,7 +106,7 @@ def cmpLe (a b : Val) : Bool := (cmp a b).isLE
 
 `pd.NaT` is an instance of `datetime.datetime` (so `cmp` ranks it with the datetimes, `_sort.py` type test) and all its native
 comparisons are False, exactly as NaN among the floats; `np.datetime64('NaT')` is turned into `pd.NaT` by `as_primitive`
-(`dt` / `np2dt`).  `cmp` gives it the place NaN has among the floats: equal to itself, above every other datetime
+(`dt`).  `cmp` gives it the place NaN has among the floats: equal to itself, above every other datetime
 (`_sort.py`: `xnan = isinstance(x, (float, datetime.datetime)) and x != x`).  The shared `Cell` has no constructor for it
 (it is the vocabulary of all twenty models), so the missing date is added here, beside the values: `ValN`.  It is modelled as
 one of the two things compared; a missing date INSIDE a container is outside the model (sampled by the implementation-only
